@@ -90,6 +90,7 @@ class Script:
         self.const = rng.choice(["0", "1"])           # REQ: one constant coin for the whole history (see coins_for)
         self.lines.append("coins %s" % coins_for(rng, fam, self.const))
         self.ks = {}
+        self.hra = {}
         self.merged = False
 
     def new(self, sid, k=None, hra=None):
@@ -99,6 +100,7 @@ class Script:
         if hra is None:
             hra = rng.randrange(2)
         self.ks[sid] = k
+        self.hra[sid] = hra
         self.lines.append("new %d %s %s %d %d" % (sid, self.fam, self.ty, k, hra))
         return k
 
@@ -297,6 +299,17 @@ def field_group(name):
     return "structure"
 
 
+def field_region(name):
+    """region name used in prefix finding keys: the part of the layout that holds the first missing byte"""
+    if name.endswith(".len"):
+        return "item-length"
+    if name in ("item", "min", "max") or name.endswith(".item"):
+        return "item-payload"
+    if name.startswith("compactor."):
+        return "compactor-header"
+    return name
+
+
 def structural_offsets(fields_line, cap=200):
     """byte offsets worth corrupting: every byte of every structural field (preamble, counts, level/compactor headers, string
     length prefixes of min/max and of the first items) plus the first bytes of the first payloads"""
@@ -320,6 +333,27 @@ def structural_offsets(fields_line, cap=200):
         else:
             ofs += list(range(off, off + ln))
     return ofs[:cap]
+
+
+def split_checks(hists, ops=("pfx", "cor")):
+    """one history per checked state (the state-building lines up to it + its check ops): cheap to re-run and to shrink"""
+    out = []
+    for h in hists:
+        build = []
+        i = 0
+        while i < len(h):
+            w = h[i].split()
+            if w and w[0] in ops:
+                grp = []
+                while i < len(h) and h[i].split()[0] in ops and h[i].split()[1] == w[1]:
+                    if h[i] not in grp:          # the same state checked twice in a row: once is enough
+                        grp.append(h[i])
+                    i += 1
+                # only the lines that concern live sketches are needed; keep all build lines (they are cheap)
+                out.append(list(build) + grp)
+            else:
+                build.append(h[i]); i += 1
+    return out
 
 
 def add_cor_offsets(hists):
